@@ -369,3 +369,28 @@ def proof_gate(ctx, search=None):
             ctx.violation("proof obligations no longer check: " + "; ".join(f"{n} ({w})" for n, w in res["failed"][:6]),
                           {"broken_theorems": res["failed"], "log": res["log"][-4000:]}, no_input=True)
     return res
+
+
+def build_exec():
+    """Build the shared real-execution oracle binary (harness/src/bin/exec.rs)."""
+    with Lock("cargo"):
+        rc, out = sh(["cargo", "build", "--offline", "--bin", "exec"], cwd=HARNESS, timeout=1800)
+        if rc != 0:
+            raise BuildError("exec oracle build", out[-6000:])
+    return os.path.join(HARNESS, "target", "debug", "exec")
+
+
+def exec_programs(programs, timeout=3600):
+    """Compile with the real compiler in-process and run wasm + TS under Node >= 22.
+    programs: list of {"sources": {module: text}, "entry": module, "std": bool, "ts": bool,
+    "timeout_ms": int}. Returns a list of {"compile": ok|errors|panic, "msg", "wasm": {"lines",
+    "end"}, "ts": {...}} in the same order (see harness/src/exec.rs for the `end` vocabulary)."""
+    if not programs:
+        return []
+    data = "\n".join(json.dumps(p) for p in programs).encode() + b"\n"
+    p = subprocess.run([os.path.join(HARNESS, "target", "debug", "exec")], input=data,
+                       stdout=subprocess.PIPE, stderr=subprocess.PIPE, timeout=timeout)
+    out = [json.loads(l) for l in p.stdout.decode("utf-8", "replace").split("\n") if l.strip()]
+    if len(out) != len(programs):
+        raise RuntimeError(f"exec oracle returned {len(out)} answers for {len(programs)} programs: {p.stderr.decode()[-500:]}")
+    return out
